@@ -2141,6 +2141,79 @@ theorem fetch_last_common_stays_on {store : Store} (ok : StoreOk store)
   exact ⟨c, hc, last_common_header_stays_on P hP hca hPb⟩
 
 
+/-- (1'), in a header store: with the node view over a well-formed rooted header store and the peer's best
+known header `b` a known header, the headers `fetch` requests are known headers, ancestors of `b`
+(`IsAnc`), unstored and unreceived, and the answer lists them in STRICTLY ascending block number (no
+number twice: two requests at one number would be the same ancestor of `b`, and no block is requested
+twice). -/
+theorem fetch_requests_in_store {store : Store} (ok : StoreOk store)
+    {scan : Nat → Hdr → Option Hdr} (sok : ScanOk store scan) {g : Hdr} (hroot : Rooted store g)
+    (hgp : store g.parent = none) {e : Env}
+    (hanc : ∀ base n, e.anc base n = (store base).bind (fun b => getAncestor store scan b n))
+    (hhdr : ∀ i, e.hdr i = store i)
+    {infl : Inflight} (hinv : Inflight.Inv infl) (ps : PeersSt) (peer fetchEnd : Nat) {bk : HIdx}
+    (hbk : (ps.get peer).bind (·.best) = some bk) {b : Hdr} (hb : store b.id = some b)
+    (hbn : bk.number = b.number ∧ bk.hash = b.id)
+    {cs : List (List Nat)} {infl' : Inflight} {ps' : PeersSt}
+    (h : fetch e infl ps peer fetchEnd = (some cs, infl', ps')) :
+    ∃ new, cs.flatten = (sortFetched new).map (·.id) ∧ (sortFetched new).Perm new ∧
+      (∀ x ∈ new, store x.id = some x ∧ IsAnc store x b ∧ e.stored x.id = false ∧ e.received x.id = false) ∧
+      (sortFetched new).Pairwise (fun a c => a.number < c.number) := by
+  obtain ⟨bk', ps1, lc, infl2, fetched, endN2, hbk', _, _, _, _, hloop, hcs, _⟩ :=
+    fetch_some_inv e infl ps peer fetchEnd cs infl' ps' h
+  rw [hbk] at hbk'
+  cases hbk'
+  obtain ⟨new, r1, r2, r3, _, r5⟩ := fetchLoop_requests e peer (bk.number, bk.hash)
+    (min (fetchEndN e lc bk fetchEnd - fetchStart e lc + 1) (peerCanFetch infl peer)) (bk.number + 2)
+    (fetchStart e lc) infl [] ps1 (fetchEndN e lc bk fetchEnd) hinv
+  rw [hloop] at r1 r2 r3
+  simp only [List.nil_append] at r1 r2 r3
+  subst r1
+  have hstore : e.hdr = store := funext hhdr
+  have hmem : ∀ x ∈ fetched, store x.id = some x ∧ IsAnc store x b ∧ e.stored x.id = false ∧
+      e.received x.id = false := by
+    intro x hx
+    obtain ⟨a, c, n, top, j, ha, hw⟩ := r5 x hx
+    rw [hanc] at ha
+    simp only [hbn.2, hb, Option.bind_some] at ha
+    have hn : n ≤ b.number := by
+      apply Nat.le_of_not_lt
+      intro hlt
+      simp [getAncestor, hlt] at ha
+    rw [getAncestor_eq_walk ok sok hb hn] at ha
+    obtain ⟨htop, htops⟩ := walk_some_isAnc ok hroot hgp _ b top hb ha
+    rw [hstore] at hw
+    obtain ⟨ht, hts⟩ := walk_some_isAnc ok hroot hgp j top x htops hw
+    exact ⟨hts, isAnc_trans ht htop, a, c⟩
+  -- no block is requested twice
+  have hnodup := r3.statesNodup
+  rw [r2, List.map_append, List.nodup_append] at hnodup
+  have hnd : fetched.Nodup := by
+    have h1 := hnodup.1
+    rw [List.map_map] at h1
+    have h2 : fetched.reverse.Pairwise (fun a c => a ≠ c) :=
+      (List.pairwise_map.mp h1).imp (by intro a c hne heq; exact hne (by rw [heq]))
+    exact (List.pairwise_reverse.mp h2).imp (by intro a c hne; exact Ne.symm hne)
+  have hperm : (sortFetched fetched).Perm fetched := List.mergeSort_perm _ _
+  have hnd' : (sortFetched fetched).Nodup := hperm.nodup_iff.mpr hnd
+  have hp := List.pairwise_mergeSort (le := fun (a b : Hdr) => decide (a.number ≤ b.number))
+    (by intro a b c h1 h2; simp only [decide_eq_true_eq] at h1 h2 ⊢; omega)
+    (by intro a b; simp only [Bool.or_eq_true, decide_eq_true_eq]; omega) fetched
+  have hle : (sortFetched fetched).Pairwise (fun a c => a.number ≤ c.number) :=
+    hp.imp (by intro a b h; simpa using h)
+  refine ⟨fetched, ?_, hperm, hmem, ?_⟩
+  · rw [hcs]; exact chunks_flatten _ (by decide) _ _ (by simp)
+  · have hboth := hle.and hnd'
+    refine hboth.imp_of_mem ?_
+    intro a c ha hc hac
+    obtain ⟨h1, h2⟩ := hac
+    have haa := (hmem a (hperm.mem_iff.mp ha)).2.1
+    have hcc := (hmem c (hperm.mem_iff.mp hc)).2.1
+    rcases Nat.lt_or_ge a.number c.number with hlt | hge
+    · exact hlt
+    · exact absurd (isAnc_unique haa hcc (by omega)) h2
+
+
 /-- non-vacuity of the requests / writes theorems, on the run of `fetch_overruns_fetch_end` (empty, hence
 consistent, in-flight table; peer 7 with best known header 5 and last common header 1): the scan records
 exactly one request — header 3 from peer 7 — and makes exactly one last-common write, to the stored and
